@@ -880,6 +880,12 @@ static void sc_mt2(int v) {
                   if (tp) { size_t r; beg("refThreadPool", -1, -1); r = ZSTD_CCtx_refThreadPool(c, tp); endc(ZSTD_isError(r) ? "E" : "ok"); } }
     if (v == 3) { setp(c, ZSTD_c_enableLongDistanceMatching, 1); setp(c, ZSTD_c_windowLog, 20); setp(c, ZSTD_c_checksumFlag, 1); }
     if (v == 4) { setp(c, ZSTD_c_overlapLog, 9); setp(c, ZSTD_c_windowLog, 21); }
+    if (v == 9) {   /* one LDM frame, then LDM switched off: the sequence pool must not keep handing out (and silently losing) buffers */
+        mark("ldm"); setp(c, ZSTD_c_enableLongDistanceMatching, 1); setp(c, ZSTD_c_windowLog, 20); op_compress2("mt2-compress2-ldm", c, g_src, n, NULL, 0);
+        mark("plain"); setp(c, ZSTD_c_enableLongDistanceMatching, 0); setp(c, ZSTD_c_nbWorkers, 4);   /* more workers: the pools are rebuilt empty, the buffer size is kept */
+        op_compress2("mt2-compress2-plain", c, g_src + 1, n, NULL, 0);
+        mark("plain-again"); op_compress2("mt2-compress2-plain2", c, g_src + 2, n, NULL, 0);
+        mark("free"); fr_cctx(c); return; }
     if (v == 8) {   /* a streaming multithreaded compression that fails is abandoned: no reset, the context is freed with jobs possibly in flight */
         size_t ip = 0, r = 0; int nf0 = g_nfailed; size_t const total = 2300000;
         mark("compress-once"); beg("compress", -1, -1);
@@ -910,6 +916,64 @@ static void sc_mt2(int v) {
         mark("st-again"); setp(c, ZSTD_c_nbWorkers, 0); op_cstream("mt2-cstream-st", c, g_src + 7, 200000, 50000, 30000, 0); }
     mark("free"); fr_cctx(c); if (cd) fr_cdict(cd);
     if (tp) { beg("freeThreadPool", -1, -1); ZSTD_freeThreadPool(tp); endc(""); }
+}
+
+/* random histories on one CCtx and one DCtx (sequence drawn from C13_RSEED and the variant; the same sequence for every k of
+   a sweep): parameters (level, nbWorkers 0..3, LDM, windowLog, checksum), dictionary by copy / by reference / prefix / none,
+   one-shot or streaming compression of various sizes, parameter resets, streaming decompression of the frame just produced with
+   random chunking.  Every operation is judged and retried like in the fixed scenarios. */
+static unsigned rs_next(unsigned* st) { *st = *st * 1664525u + 1013904223u; return (*st >> 10) & 0xFFFFF; }
+static void sc_rand(int v) {
+    unsigned st = (unsigned)(getenv("C13_RSEED") ? atoi(getenv("C13_RSEED")) : 1) * 7919u + (unsigned)v * 104729u + 17u;
+    ZSTD_CCtx* c; ZSTD_DCtx* d; int step; static char* fr; static size_t frcap; size_t frn = 0; const char* frsrc = NULL; size_t frsz = 0;
+    const char* dict = NULL; size_t dictSize = 0; int dictIsPrefix = 0; const char* fdict = NULL; size_t fdictSize = 0;
+    int workers = 0;
+    if (!fr) { frcap = ZSTD_compressBound(1600000) + 64; fr = (char*)__real_malloc(frcap); }
+    mark("create"); c = mk_cctx(); if (!c) return; d = mk_dctx(); if (!d) { fr_cctx(c); return; }
+    for (step = 0; step < 14; step++) {
+        unsigned const r = rs_next(&st) % 10;
+        if (r == 0) { static const int lv[] = { 1, 3, 5, 9, 16 }; mark("level"); setp(c, ZSTD_c_compressionLevel, lv[rs_next(&st) % 5]); }
+        else if (r == 1) { static const int nw[] = { 0, 1, 1, 2, 3 }; workers = nw[rs_next(&st) % 5]; mark("workers"); setp(c, ZSTD_c_nbWorkers, workers); if (workers) setp(c, ZSTD_c_jobSize, 1 << 19); }
+        else if (r == 2) { static const int wl[] = { 0, 18, 21 }; mark("ldm-window"); setp(c, ZSTD_c_enableLongDistanceMatching, (int)(rs_next(&st) & 1) ? 1 : 0); setp(c, ZSTD_c_windowLog, wl[rs_next(&st) % 3]); setp(c, ZSTD_c_checksumFlag, (int)(rs_next(&st) & 1)); }
+        else if (r == 3) {   /* dictionary */
+            unsigned const k = rs_next(&st) % 4; int t; mark("dict");
+            if (k == 3) { size_t rr; beg("loadDictionary", 0, -1); rr = ZSTD_CCtx_loadDictionary(c, NULL, 0); endc(ZSTD_isError(rr) ? "E" : "ok"); dict = NULL; dictSize = 0; dictIsPrefix = 0; }
+            else if (k == 2) { dict = g_src + 2000000 + (rs_next(&st) % 1000); dictSize = 100000; dictIsPrefix = 1; }   /* referenced before each compression */
+            else { for (t = 0; t < MAXTRY; t++) { int nf0 = g_nfailed; size_t rr = do_load_dict(c, (int)k, g_dict);
+                       judge("loadDictionary", ZSTD_isError(rr), ZSTD_isError(rr) ? rr : 0, nf0, t); if (!ZSTD_isError(rr)) break; }
+                   dict = g_dict; dictSize = g_dictSize; dictIsPrefix = 0; }
+        }
+        else if (r == 4) { size_t rr; mark("reset-params"); beg("CCtx_reset", -1, -1); rr = ZSTD_CCtx_reset(c, ZSTD_reset_session_and_parameters); endc(ZSTD_isError(rr) ? "E" : "ok"); dict = NULL; dictSize = 0; dictIsPrefix = 0; workers = 0; }
+        else if (r <= 7) {   /* compression */
+            static const size_t szs[] = { 1000, 30000, 200000, 700000, 1500000 }; size_t n = szs[rs_next(&st) % 5]; const char* src = g_src + (rs_next(&st) % 1000) * 100; int t;
+            if (src + n > g_src + 2000000) n = 200000;
+            mark("compress");
+            for (t = 0; t < MAXTRY; t++) {
+                int nf0 = g_nfailed; size_t rr;
+                if (dictIsPrefix) { beg("refPrefix", -1, -1); rr = ZSTD_CCtx_refPrefix(c, dict, dictSize); endc(ZSTD_isError(rr) ? "E" : "ok"); }
+                beg("compress", -1, -1);
+                if (r == 7) { ZSTD_inBuffer in = { src, n, 0 }; ZSTD_outBuffer o = { fr, frcap, 0 }; size_t const chunk = 1 + rs_next(&st) % 300000;
+                    rr = 0; while (in.pos < n && !ZSTD_isError(rr)) { ZSTD_inBuffer i2 = { src, in.pos + chunk < n ? in.pos + chunk : n, in.pos }; rr = ZSTD_compressStream2(c, &o, &i2, ZSTD_e_continue); in.pos = i2.pos; }
+                    while (!ZSTD_isError(rr)) { ZSTD_inBuffer i0 = { NULL, 0, 0 }; rr = ZSTD_compressStream2(c, &o, &i0, ZSTD_e_end); if (rr == 0) { rr = o.pos; break; } } }
+                else rr = ZSTD_compress2(c, fr, frcap, src, n);
+                judge("rand-compress", ZSTD_isError(rr), ZSTD_isError(rr) ? rr : 0, nf0, t);
+                if (!ZSTD_isError(rr)) { frn = rr; frsrc = src; frsz = n; fdict = dict; fdictSize = dictSize; check_rt("rand-compress", fr, frn, src, n, dict, dictSize); break; }
+                { size_t r2; beg("CCtx_reset", -1, -1); r2 = ZSTD_CCtx_reset(c, ZSTD_reset_session_only); endc(ZSTD_isError(r2) ? "E" : "ok"); }
+            }
+            if (t == MAXTRY) violation("not-reusable-after-reset", "rand-compress");
+        }
+        else if (frn) {      /* streaming decompression of the last frame */
+            size_t const ic = 1 + rs_next(&st) % 70000, oc = 1 + rs_next(&st) % 200000; int t;
+            mark("decompress");
+            if (fdict) { for (t = 0; t < MAXTRY; t++) { int nf0 = g_nfailed; size_t rr; beg("DCtx_loadDictionary", 1, -1);
+                    rr = (fdict == g_dict) ? ZSTD_DCtx_loadDictionary(d, fdict, fdictSize) : ZSTD_DCtx_loadDictionary_advanced(d, fdict, fdictSize, ZSTD_dlm_byRef, ZSTD_dct_rawContent);
+                    judge("DCtx_loadDictionary", ZSTD_isError(rr), ZSTD_isError(rr) ? rr : 0, nf0, t); if (!ZSTD_isError(rr)) break; } }
+            else { size_t rr; beg("DCtx_loadDictionary", 0, -1); rr = ZSTD_DCtx_loadDictionary(d, NULL, 0); endc(ZSTD_isError(rr) ? "E" : "ok"); }
+            { size_t rr = ZSTD_DCtx_setParameter(d, ZSTD_d_windowLogMax, 27); (void)rr; }
+            op_dstream("rand-dstream", d, fr, frn, frsrc, frsz, ic, oc);
+        }
+    }
+    mark("free"); fr_cctx(c); fr_dctx(d);
 }
 
 /* thread-resource failures: the same scenarios with pthread_create / pthread_mutex_init / pthread_cond_init taking part in the
@@ -1010,10 +1074,11 @@ static const scen_t g_scen[] = {
     { "legacy_v07", sc_legacy, 0, 0 }, { "legacy_versions", sc_legacy, 1, 0 }, { "legacy_oneshot", sc_legacy, 2, 0 }, { "legacy_switch", sc_legacy, 3, 0 },
     { "simple_api", sc_simple, 0, 0 }, { "simple_dict_api", sc_simple, 1, 0 }, { "simple_cdict_dds", sc_simple, 2, 0 }, { "simple_sequences", sc_simple, 3, 0 },
     { "mt2_prefix", sc_mt2, 0, 0 }, { "mt2_cdict", sc_mt2, 1, 0 }, { "mt2_threadpool", sc_mt2, 2, 0 }, { "mt2_ldm_stream", sc_mt2, 3, 1 },
-    { "mt2_overlap9", sc_mt2, 4, 1 }, { "mt2_dict_ref", sc_mt2, 5, 0 }, { "mt2_threadpool_grow", sc_mt2, 6, 0 }, { "mt2_switch_st", sc_mt2, 7, 0 }, { "mt2_fail_then_free", sc_mt2, 8, 0 },
+    { "mt2_overlap9", sc_mt2, 4, 1 }, { "mt2_dict_ref", sc_mt2, 5, 0 }, { "mt2_threadpool_grow", sc_mt2, 6, 0 }, { "mt2_switch_st", sc_mt2, 7, 0 }, { "mt2_fail_then_free", sc_mt2, 8, 0 }, { "mt2_ldm_then_plain", sc_mt2, 9, 0 },
     { "thr_pool", sc_thr, 0, 0 }, { "thr_mtctx", sc_thr, 1, 0 }, { "thr_mtresize", sc_thr, 2, 0 }, { "thr_mt_oneshot", sc_thr, 3, 0 },
     { "thr_mt_resize", sc_thr, 4, 0 }, { "thr_threadpool", sc_thr, 5, 0 }, { "thr_opt_cover", sc_thr, 6, 1 }, { "thr_opt_fastcover", sc_thr, 7, 1 },
     { "invalid_dict", sc_dict_invalid, 0, 0 },
+    { "rand_0", sc_rand, 0, 0 }, { "rand_1", sc_rand, 1, 0 }, { "rand_2", sc_rand, 2, 0 }, { "rand_3", sc_rand, 3, 0 }, { "rand_4", sc_rand, 4, 0 }, { "rand_5", sc_rand, 5, 0 },
     { "seekable_rw", sc_seekable, 0, 0 }, { "seekable_reinit", sc_seekable, 1, 0 },
 };
 #define NSCEN ((int)(sizeof g_scen / sizeof *g_scen))
